@@ -113,7 +113,7 @@ def tlc(scratch, module, cfg, env=None, workers="auto", timeout=3600, extra=(), 
     return out, p.returncode, gen_n, dist_n
 
 
-def tlc_design(scratch, module, cfg, timeout=3600, workers="auto", heap="16g", env=None):
+def tlc_design(scratch, module, cfg, timeout=3600, workers="auto", heap="8g", env=None):
     """Design-level check: the specification itself must satisfy its invariants."""
     t0 = time.time()
     out, rc, gen_n, dist_n = tlc(scratch, module, cfg, workers=workers, timeout=timeout, heap=heap, env=env)
